@@ -149,6 +149,26 @@ func fpChange(old, cur map[string]string, method string) string {
 	case len(added)+len(removed)+len(changed) == 0:
 		return ""
 	}
+	// several files at once: if nothing was edited and every file that appeared carries the value
+	// (content / modification time) of one that disappeared, the change is made of removals and
+	// renames only
+	if len(changed) == 0 && len(removed) > len(added) {
+		gone := map[string]int{}
+		for _, k := range removed {
+			gone[old[k]]++
+		}
+		pure := true
+		for _, k := range added {
+			if gone[cur[k]] == 0 {
+				pure = false
+				break
+			}
+			gone[cur[k]]--
+		}
+		if pure {
+			return "removed_and_renamed"
+		}
+	}
 	return "several"
 }
 func (m *c05Model) cause(ev string, is bool) {
